@@ -1,4 +1,5 @@
 import CgtModel.Report
+import CgtModel.Config
 import CgtModel.Spec
 import CgtModel.Fx
 import CgtModel.Dsl
